@@ -218,43 +218,48 @@ namespace bluetoe {
             void clear_indications_and_confirmations()
             {
                 next_ = 0;
-                std::fill( std::begin( queue_ ), std::end( queue_ ), 0 );
+                std::fill( std::begin( notifications_ ), std::end( notifications_ ), 0 );
+                std::fill( std::begin( indications_ ), std::end( indications_ ), 0 );
             }
 
         private:
+            /*
+             * Every flag has a byte of its own, that is only written to change its value: set by the context
+             * that queues, reset by the context that dequeues. That way, queueing from an interrupt service routine
+             * or from a different thread can not get lost in (or be duplicated by) a read-modify-write of a
+             * concurrent dequeuing.
+             */
             int at( std::size_t index )
             {
-                const auto bit_offset  = ( index * bits_per_characteristc ) % 8;
-                const auto byte_offset = index * bits_per_characteristc / 8;
-                assert( byte_offset < sizeof( queue_ ) / sizeof( queue_[ 0 ] ) );
+                assert( index < Size );
 
-                return ( queue_[ byte_offset ] >> bit_offset ) & 0x03;
+                return ( notifications_[ index ] ? notification_bit : 0 )
+                     | ( indications_[ index ]   ? indication_bit   : 0 );
             }
 
             bool add( std::size_t index, int bits )
             {
-                assert( bits & ( ( 1 << bits_per_characteristc ) -1 ) );
-                const auto bit_offset  = ( index * bits_per_characteristc ) % 8;
-                const auto byte_offset = index * bits_per_characteristc / 8;
-                assert( byte_offset < sizeof( queue_ ) / sizeof( queue_[ 0 ] ) );
+                assert( bits == notification_bit || bits == indication_bit );
+                assert( index < Size );
 
-                const bool result = ( queue_[ byte_offset ] & ( bits << bit_offset ) ) == 0;
-                queue_[ byte_offset ] |= bits << bit_offset;
+                std::uint8_t& flag = bits == notification_bit ? notifications_[ index ] : indications_[ index ];
+
+                const bool result = flag == 0;
+
+                if ( result )
+                    flag = 1;
 
                 return result;
             }
 
             void remove( std::size_t index, int bits )
             {
-                assert( bits & ( ( 1 << bits_per_characteristc ) -1 ) );
-                const auto bit_offset  = ( index * bits_per_characteristc ) % 8;
-                const auto byte_offset = index * bits_per_characteristc / 8;
-                assert( byte_offset < sizeof( queue_ ) / sizeof( queue_[ 0 ] ) );
+                assert( bits == notification_bit || bits == indication_bit );
+                assert( index < Size );
 
-                queue_[ byte_offset ] &= ~( bits << bit_offset );
+                std::uint8_t& flag = bits == notification_bit ? notifications_[ index ] : indications_[ index ];
+                flag = 0;
             }
-
-            static constexpr std::size_t bits_per_characteristc = 2;
 
             enum char_bits {
                 notification_bit = 0x01,
@@ -262,7 +267,8 @@ namespace bluetoe {
             };
 
             std::size_t     next_;
-            std::uint8_t    queue_[ ( Size * bits_per_characteristc + 7 ) / 8 ];
+            std::uint8_t    notifications_[ Size ];
+            std::uint8_t    indications_[ Size ];
         };
 
         /**
@@ -284,7 +290,9 @@ namespace bluetoe {
                 assert( idx == 0 );
 
                 const bool result = !notification_;
-                notification_ = true;
+
+                if ( result )
+                    notification_ = true;
 
                 return result;
             }
@@ -295,7 +303,9 @@ namespace bluetoe {
                 assert( idx == 0 );
 
                 const bool result = !indication_;
-                indication_ = true;
+
+                if ( result )
+                    indication_ = true;
 
                 return result;
             }
